@@ -19,11 +19,11 @@ CONSTANTS KeySets,       \* key lists the server may hold (all contain the clien
 
 \* client records
 ClientAll == {"CH2ok", "CH2noEch", "CH2cid", "CH2suite", "CH2enc", "CH2undec", "CH2sni", "CH2alpn", "CH2outerSni", "CH2innerType",
-              "CH2no13", "CH2again", "CCS", "HSother", "ALERT", "APP", "ZERO", "ZEROAPP"}
+              "CH2no13", "CH2noEchNo13", "CH2again", "CCS", "HSother", "ALERT", "APP", "ZERO", "ZEROAPP"}
 \* backend records
-BackendAll == {"SH", "HRR", "CCS", "HSother", "APP", "SHbad", "ZERO", "ZEROAPP", "ALERTF"}
+BackendAll == {"SH", "HRR", "CCS", "HSother", "APP", "SHbad", "ZERO", "ZEROAPP", "ALERTF", "SH12"}
 
-IsCH(s) == s \in {"CH2ok", "CH2noEch", "CH2cid", "CH2suite", "CH2enc", "CH2undec", "CH2sni", "CH2alpn", "CH2outerSni", "CH2innerType", "CH2no13", "CH2again"}
+IsCH(s) == s \in {"CH2ok", "CH2noEch", "CH2cid", "CH2suite", "CH2enc", "CH2undec", "CH2sni", "CH2alpn", "CH2outerSni", "CH2innerType", "CH2no13", "CH2noEchNo13", "CH2again"}
 
 VARIABLES first, keyset,               \* scenario
           accepted, rPass, wPass, retry, seq, cseq, st, wDead,
@@ -48,7 +48,7 @@ Seals(s) == s \in {"CH2ok", "CH2cid", "CH2suite", "CH2enc", "CH2undec", "CH2sni"
 
 \* result of processing a retried hello (ech.go:150-176,181-235): <<kind, class, opened>>
 RetryResult(s) ==
-  CASE s = "CH2noEch"     -> <<"abort", "missing_extension", FALSE>>
+  CASE s \in {"CH2noEch", "CH2noEchNo13"} -> <<"abort", "missing_extension", FALSE>>   \* the missing extension is what is wrong, whatever else the hello lacks
     [] s = "CH2innerType" -> <<"abort", "illegal_parameter", FALSE>>      \* 'inner' type in an outer hello, server has keys
     [] s = "CH2no13"      -> <<"abort", "illegal_parameter", FALSE>>      \* a matching, sealed ECH extension but no TLS 1.3 offer: not processed, hence "no inner hello"
     [] s \in {"CH2cid", "CH2suite", "CH2enc"} -> <<"abort", "illegal_parameter", FALSE>>
@@ -80,7 +80,7 @@ Read(s) ==
 \* Conn.Write of one whole backend record
 Write(s) ==
   /\ st = "ok" /\ s \in BSyms /\ ~wDead
-  /\ wDead' = (~wPass /\ s = "SHbad")       \* the spec is silent about writes after a failed one
+  /\ wDead' = (~wPass /\ s \in {"SHbad", "SH12"})       \* the spec is silent about writes after a failed one
   /\ IF wPass THEN
         /\ Log(<<"w", s>>, <<"fwd">>) /\ UNCHANGED <<wPass, retry>>
      ELSE IF s \in {"APP", "ZEROAPP"} THEN                                  \* application data of any length, empty included
@@ -89,6 +89,8 @@ Write(s) ==
         /\ wPass' = TRUE /\ retry' = retry + 1 /\ Log(<<"w", s>>, <<"fwd">>)
      ELSE IF s = "SHbad" THEN
         /\ Log(<<"w", s>>, <<"werr">>) /\ UNCHANGED <<wPass, retry>>           \* not forwarded, Write fails
+     ELSE IF s = "SH12" THEN      \* a TLS 1.2 ServerHello (no extensions block) answering an accepted ECH: a protocol violation of the
+        /\ Log(<<"w", s>>, <<"any">>) /\ UNCHANGED <<wPass, retry>>            \* backend; refused or forwarded, the spec does not say. (Forwarded on pass-through connections.)
      ELSE
         /\ Log(<<"w", s>>, <<"fwd">>) /\ UNCHANGED <<wPass, retry>>
   /\ UNCHANGED <<first, keyset, accepted, rPass, seq, cseq, st>>
